@@ -128,18 +128,20 @@ Fixpoint run (ops : list op) (st : state) : list ev * list sample * state :=
   end.
 
 (* adaptive run: the next instruction is an arbitrary function D of everything that has happened so far
-   (the events carry the positions, and the value of a variate is a function of its position), i.e. the
-   sampler's decisions, the allocation, the number of levels and passes are all left open *)
-Fixpoint arun (fuel : nat) (D : list ev -> option op) (st : state) (hist : list ev) : list ev * list sample :=
+   (instructions executed and events; the events carry the positions, and the value of a variate is a
+   function of its position), i.e. the sampler's decisions, the allocation, the number of levels and
+   passes are all left open.  Returns the instructions chosen, the events and the samples. *)
+Fixpoint arun (fuel : nat) (D : list op -> list ev -> option op) (st : state) (oh : list op) (hist : list ev)
+  : list op * list ev * list sample :=
   match fuel with
-  | O => (hist, [])
+  | O => (oh, hist, [])
   | S f =>
-      match D hist with
-      | None => (hist, [])
+      match D oh hist with
+      | None => (oh, hist, [])
       | Some o =>
           let '(st', (e, s)) := step st o in
-          let '(h, ss) := arun f D st' (hist ++ e) in
-          (h, s ++ ss)
+          let '(ops, h, ss) := arun f D st' (oh ++ [o]) (hist ++ e) in
+          (ops, h, s ++ ss)
       end
   end.
 
@@ -278,6 +280,56 @@ Definition pool_run (g0 : gen) (m : mode) (n : Z) (wseeds : list Z) (chunks : li
   let '(pe, _, parent) := run (pre m 0 n) (init g0) in
   let '(logs, sms) := pool_chunks m parent (map (fun s => mkGen s 0 0) wseeds) (map (fun s => [ESeed s]) wseeds) chunks in
   (pe, logs, sms).
+
+(* ------------------------------------------------------------------ the clock-based seed
+   Configuration.initialisation_seed without a usable seed.  Repaired tree (fix: commit of branch
+   fix-rng2): np.random.seed([pid, now]); random.seed(pid * 2**32 + now)  -- the seed id is the pair,
+   encoded pid * 2^32 + now (now = int(time.time()) < 2^32).  Before: (pid * now) % 123456789. *)
+Definition seed_of (pid now : Z) : Z := pid * 2 ^ 32 + now.
+Definition seed_of_orig (pid now : Z) : Z := (pid * now) mod 123456789.
+
+Definition pool_run_pids (g0 : gen) (m : mode) (n : Z) (pids : list Z) (now : Z) (chunks : list (nat * list sched)) :=
+  pool_run g0 m n (map (fun p => seed_of p now) pids) chunks.
+Definition pool_run_pids_orig (g0 : gen) (m : mode) (n : Z) (pids : list Z) (now : Z) (chunks : list (nat * list sched)) :=
+  pool_run g0 m n (map (fun p => seed_of_orig p now) pids) chunks.
+
+(* ------------------------------------------------------------------ schedules derived from the variates' values
+   val = the generators as deterministic functions of the position; nxt = the sampler / coupling logic
+   of one sample: given the values the sample has seen so far (in fixed-date mode it starts with the
+   Poisson row it pops) it names the next fresh draw, or None when the sample is complete. *)
+Section Derived.
+  Variable val : pos -> Z.
+  Variable nxt : list Z -> option (bool * Z * bool).
+
+  Fixpoint derive_sched (fuel : nat) (g : gen) (seen : list Z) : sched :=
+    match fuel with
+    | O => []
+    | S f =>
+        match nxt seen with
+        | None => []
+        | Some (py, k, dec) =>
+            (py, k, dec) :: derive_sched f (advance py k g) (seen ++ map val (block py (g_sid g) (ctr py g) k))
+        end
+    end.
+
+  Definition next_sched (fuel : nat) (st : state) (slot : Z) (fixed : bool) : sched :=
+    derive_sched fuel (s_gen st)
+      (if fixed then match q_pois (s_slot st slot) with r :: _ => map val (snd r) | [] => [] end else []).
+
+  Fixpoint derive_samples (n fuel : nat) (st : state) (slot : Z) (fixed : bool) (lvl : Z) : list sched :=
+    match n with
+    | O => []
+    | S k =>
+        let sc := next_sched fuel st slot fixed in
+        sc :: derive_samples k fuel (fst (step st (OSample slot fixed lvl sc))) slot fixed lvl
+    end.
+
+  (* the schedule of a standard-engine run of n paths, as the run itself produces it *)
+  Definition std_derived (fuel : nat) (seed : option Z) (t : Z) (m : mode) (n : nat) (g : gen) : list sched :=
+    derive_samples n fuel (snd (run (OSeed (seed_choice seed false t) :: pre m 0 (Z.of_nat n)) (init g))) 0 (m_fixed m) (-1).
+  Definition std_derived_orig (fuel : nat) (seed : option Z) (t : Z) (m : mode) (n : nat) (g : gen) : list sched :=
+    derive_samples n fuel (snd (run (pre m 0 (Z.of_nat n) ++ [OSeed (seed_choice_orig seed false t)]) (init g))) 0 (m_fixed m) (-1).
+End Derived.
 
 (* ------------------------------------------------------------------ encodings used by the correspondence *)
 Definition b2z (b : bool) : Z := if b then 1 else 0.
